@@ -110,6 +110,7 @@ class ClassInfo(object):
         self.methods = {}      # name -> FuncInfo (plain + property getters)
         self.setters = {}      # name -> FuncInfo
         self.class_attrs = {}  # name -> ast expr
+        self.ann_fields = []   # (name, default expr or None) of annotated class-level names, in order
         for st in node.body:
             if isinstance(st, ast.FunctionDef):
                 fi = FuncInfo(module, st, cls=self)
@@ -121,6 +122,10 @@ class ClassInfo(object):
                 for t in st.targets:
                     if isinstance(t, ast.Name):
                         self.class_attrs[t.id] = st.value
+            elif isinstance(st, ast.AnnAssign) and isinstance(st.target, ast.Name):
+                self.ann_fields.append((st.target.id, st.value))       # annotated names in order (dataclass / NamedTuple fields)
+                if st.value is not None:
+                    self.class_attrs[st.target.id] = st.value
 
     @property
     def fq(self):
